@@ -17,7 +17,7 @@ from model import Opt, Schema, dump_sec
 import reftext
 
 PID = 'C08'
-E8 = Schema('E8', [Opt('int', 'i', '', 5), Opt('str', 's', '', b'd'), Opt('int', 'l', 'L', [b'1']), Opt('float', 'f', '', 1.5),
+E8 = Schema('E8', [Opt('int', 'i', '', 5), Opt('str', 's', '', b'd'), Opt('int', 'l', 'L', [b'1']), Opt('float', 'f', '', 1.5), Opt('int', 'old', 'D', 1),
                    Opt('sec', 'm', 'M', sub=[Opt('int', 'x', '', 1)]), Opt('func', 'include', '', None, 'i'),
                    Opt('sec', 'sec', '', sub=[Opt('int', 'x', '', 1)])])
 CHAIN = 10
@@ -39,6 +39,7 @@ EVENTS = {
     'sq': ('buf', b"s = 'abc"), 'sqf': ('file', b'sq.conf'),
     'cm': ('buf', b'/* abc'), 'cmf': ('file', b'cm.conf'),
     'esc': ('buf', b's = "\\9"'), 'range': ('buf', b'i = 99999999999999999999'), 'frange': ('buf', b'f = 1e99999'),
+    'depdq': ('buf', b'old = 1 s = "abc'),      # mentions a deprecated option (stores the value it has anyway), then aborts inside a string
     'inc1': ('buf', b'include("bad1.conf")'), 'inc1f': ('file', b'incbad1.conf'),
     'inc2': ('buf', b'include("inc2.conf")'), 'incdq': ('buf', b'include("dqinc.conf")'),
     'incself': ('buf', b'include("self.conf")'), 'incmiss': ('buf', b'include("nope.conf")'), 'incdir': ('buf', b'include("d")'),
@@ -48,7 +49,7 @@ EVENTS = {
     'reinit': ('reinit', None), 'switch': ('switch', None),
 }
 KEEP = ('ok', 'okf', 'okfp', 'oksecf', 'reinit', 'switch')     # events with a lasting, specified effect on the stores
-ORDER = ['ok', 'okf', 'syn', 'synf', 'dq', 'dqf', 'dq0', 'sq', 'sqf', 'cm', 'cmf', 'esc', 'range', 'frange', 'inc1', 'inc1f', 'inc2', 'incdq',
+ORDER = ['ok', 'okf', 'syn', 'synf', 'dq', 'dqf', 'dq0', 'sq', 'sqf', 'cm', 'cmf', 'esc', 'range', 'frange', 'depdq', 'inc1', 'inc1f', 'inc2', 'incdq',
          'incself', 'incmiss', 'incdir', 'oksecf', 'incsecbad', 'okfp', 'synfp', 'fperr', 'reinit', 'switch']
 
 PROBES = {
@@ -121,6 +122,7 @@ def live_probe_case(hist):
     other = 'B' if cur == 'A' else 'A'
     return Case(fixture_lines() + lines + ['note probe', 'parse_buf %s %s' % (cur, enc(PROBES['P7-float-first'])), 'dump %s 0' % cur,
                                            'parse_buf %s %s' % (cur, enc(PROBES['P1-plain'])), 'dump %s 0' % cur, 'dump %s 0' % other,
+                                           'parse_buf %s %s' % (cur, enc(b'old = 1 i = 8')), 'parse_buf %s %s' % (other, enc(b'old = 1')), 'dump %s 0' % cur,   # the notice about a deprecated option: every time
                                            'parse_buf %s %s' % (other, enc(PROBES['P4-error-with-diagnostics'])), 'dump %s 0' % other,
                                            'parse_buf %s %s' % (cur, enc(PROBES['P3-include-full-depth'])), 'dump %s 0' % cur,
                                            'parse_buf %s %s' % (cur, enc(PROBES['P5-error-inside-a-single-section'])),
